@@ -115,7 +115,7 @@ def main() -> int:
             ck.tlc("LexDiag", what="diagnosis of wrong literals", env={"VERIF_OBS": str(bp), "VERIF_OUT": str(dp)}, count=False, jvm=JVM, timeout=900)
             diags.extend(core.read_json(dp))
         for o, d in zip(bad, diags):
-            key = {"family": o["emitter"].split("[")[0], "emitter": o["emitter"], "cause": d["cause"] + (": " + d["why"] if d["why"] else ""), "at": d["at"], "next": d["next"]}
+            key = {"family": o["emitter"].split("[")[0], "emitter": o["emitter"], "cause": d["cause"] + (": " + d["why"] if d["why"] else ""), "original": d["sig"]}
             ck.violation(
                 key,
                 "Inv_Denotes",
@@ -124,7 +124,7 @@ def main() -> int:
                 detail="%s(%s) = %s : %s%s" % (o["emitter"], show(o["orig"]), show(o["text"]), d["cause"], (" (" + d["why"] + ")") if d["why"] else ""),
             )
     for o in other:
-        key = {"family": o["emitter"].split("[")[0], "emitter": o["emitter"], "cause": o["invariant"], "at": o["exc"].split(":")[0].split(" at ")[0] if o["exc"] else "", "next": ""}
+        key = {"family": o["emitter"].split("[")[0], "emitter": o["emitter"], "cause": o["invariant"], "original": o["exc"].split(":")[0].split(" at ")[0] if o["exc"] else ""}
         ck.violation(key, o["invariant"], {"emitter": o["emitter"], "kind": o["kind"], "orig": core.from_cps(o["orig"]), "what": o["what"]}, {"outcome": o["outcome"], "exc": o["exc"]}, detail="%s(%s): %s %s" % (o["emitter"], show(o["orig"]), o["outcome"], o["exc"]))
     ck.cov["evaluations"] = len(obs)
     ck.cov["traces_validated_against_impl"] = len(obs)
